@@ -513,6 +513,11 @@ def _cases_for(util, tier):
             # keys written as negative integers (x == -1 is ordinary claripy usage): same bit pattern, other Python order
             keys = [(k - (1 << n)) if (k >> (n - 1)) and draw(st.booleans()) else k for k in keys]
         table = [(k, draw(st.one_of(gen.consts(vn), gen.bv_vars(vn, 2)))) for k in keys]
+        if table and draw(st.integers(0, 3)) == 0:
+            # the same key written again out of range (k + 2^n, k - 2^n ...), with the same value so that the meaning stays unambiguous
+            k0, v0 = table[draw(st.integers(0, len(table) - 1))]
+            for j in range(draw(st.integers(1, 4))):
+                table.append((k0 + (j + 1) * (1 << n) * draw(st.sampled_from((1, -1))), v0))
         return {"util": "ite_dict", "index": idx, "table": table, "default": draw(gen.consts(vn)), "spell": draw(spell)}
 
     @st.composite
